@@ -55,8 +55,8 @@ theorem Sys.sendCmd_th_other (s : Sys) (t t2 : Nat) (cmd : Cmd) (f : Bool) (hne 
     | some r =>
       simp only
       split
-      · rw [Sys.th_setTh_other _ _ _ _ hne, Sys.setRing_th, h1]
-      · rw [Sys.th_setTh_other _ _ _ _ hne, Sys.setRing_th, h1]
+      · rw [Sys.withG_th, Sys.th_setTh_other _ _ _ _ hne, Sys.setRing_th, h1]
+      · rw [Sys.withG_th, Sys.th_setTh_other _ _ _ _ hne, Sys.setRing_th, h1]
 
 theorem Sys.submitSpans_th_other (s : Sys) (t t2 : Nat) (sp : SpanSet) (tok : Token) (hne : t2 ≠ t) :
     (s.submitSpans t sp tok).th t2 = s.th t2 := by
@@ -150,9 +150,9 @@ theorem Sys.exitThread_th_other (s : Sys) (t t2 : Nat) (hne : t2 ≠ t) : (s.exi
   simp only
   split
   · split
-    · rw [Sys.setRing_th, Sys.th_setTh_other _ _ _ _ hne, foldl_closeGuard_th_other _ _ _ _ hne]
-    · rw [Sys.th_setTh_other _ _ _ _ hne, foldl_closeGuard_th_other _ _ _ _ hne]
-  · rw [Sys.th_setTh_other _ _ _ _ hne, foldl_closeGuard_th_other _ _ _ _ hne]
+    · rw [Sys.withG_th, Sys.setRing_th, Sys.th_setTh_other _ _ _ _ hne, foldl_closeGuard_th_other _ _ _ _ hne]
+    · rw [Sys.withG_th, Sys.th_setTh_other _ _ _ _ hne, foldl_closeGuard_th_other _ _ _ _ hne]
+  · rw [Sys.withG_th, Sys.th_setTh_other _ _ _ _ hne, foldl_closeGuard_th_other _ _ _ _ hne]
 
 theorem Sys.spamOnce_th_other (s : Sys) (t t2 : Nat) (hne : t2 ≠ t) : (s.spamOnce t).th t2 = s.th t2 := by
   unfold Sys.spamOnce
@@ -536,8 +536,8 @@ theorem Sys.sendCmd_loc (s : Sys) (t t2 : Nat) (cmd : Cmd) (f : Bool) : ((s.send
       | some r =>
         dsimp only
         split
-        · rw [Sys.th_setTh_same]; exact h1
-        · rw [Sys.th_setTh_same]; exact h1
+        · rw [Sys.withG_th, Sys.th_setTh_same]; exact h1
+        · rw [Sys.withG_th, Sys.th_setTh_same]; exact h1
   · rw [Sys.sendCmd_th_other _ _ _ _ _ hne]
 
 theorem Sys.submitSpans_loc (s : Sys) (t t2 : Nat) (sp : SpanSet) (tok : Token) :
@@ -604,8 +604,8 @@ theorem Sys.sendCmd_adapters (s : Sys) (t : Nat) (cmd : Cmd) (f : Bool) : (s.sen
     | some r =>
       dsimp only
       split
-      · rw [Sys.setTh_adapters, Sys.setRing_adapters]; exact h1
-      · rw [Sys.setTh_adapters, Sys.setRing_adapters]; exact h1
+      · rw [Sys.withG_adapters, Sys.setTh_adapters, Sys.setRing_adapters]; exact h1
+      · rw [Sys.withG_adapters, Sys.setTh_adapters, Sys.setRing_adapters]; exact h1
 
 theorem Sys.submitSpans_adapters (s : Sys) (t : Nat) (sp : SpanSet) (tok : Token) :
     (s.submitSpans t sp tok).adapters = s.adapters := by
